@@ -187,7 +187,7 @@ def check_spectrum(run, ld, thorough):
 
 def main(prop, tier, seed):
     run = common.Run(prop, tier, seed)
-    aud = common.audit(prop, thorough=(tier == "thorough"))
+    aud = common.audit_with_arith(prop, "C07Gen", thorough=(tier == "thorough"))
     common.use_repo_source()
     from ocean_science_utilities.wavetheory import lineardispersion as ld
     thorough = tier == "thorough"
